@@ -9,12 +9,14 @@ from harness import c07_gen as G
 from harness import c07_dispatch as D
 from harness import c07_fw as F
 from harness import c07_lines as L
+from harness import c07_stmts as S
 
 META = {
     "id": "C07",
     "technique": "Coq proof (induction over line lists: _strip_inline_comment vs Python's comment rule, _collect_block vs Python's block rule, round trip of the block-skeleton parser over every layout of the re-layout relation; reflection over the translator-generated line-accounting table) + extracted-model correspondence with the real lexical functions, header regexes and the recorded _parse_simple_lines call tree + CPython tokenize/ast validation of the specification + re-layout metamorphism and line-accounting oracles on the real parse()+emit() with the REDUINO_VERIF hook + Coq model of the control-flow part of _emit_block / emit() with a C++ compound-statement reader as specification (induction over IR trees: the firmware's block tree and the conditions every line runs under are Python's) + block-structure oracle on the real firmware",
     "level_text": "Theorems C07_* (coq/Props/C07.v) are proved for all line lists about a Gallina model of the lexical layer of parser.py (Lang/Lex.v) against a hand-written model of Python's layout rules (Lang/PyLayout.v, validated against CPython's tokenizer and ast on every run). Block extent and comment stripping are proved inside explicit guards and refuted outside them by concrete witnesses (mixed tabs, '#' in a triple-quoted literal); comment-only lines at any column, trailing comments on column-0 headers and on elif/else/except are inside the guards since the repair of the comment handling (fixed findings, replayed on every run); the line-accounting table (69 statement kinds x 4 contexts) is regenerated from the current parser and checked by computation against the fixed set of the property plus the listed gaps; `continue` left the listed gaps with the repair of the parser (fixed finding, replayed on every run) and is pinned: translated in a for/while loop and at the level of the main loop, rejected outside any loop. The firmware side (Lang/EmitBlocks.v): _emit_block's treatment of IfStatement / WhileLoop / ForRangeLoop / TryStatement and the function / setup / loop sections of emit() are modelled line by line; read the way C++ groups lines into compound statements, the emitted lines are proved to be one stanza per branch, loop and handler around exactly its own lines (C07_emit_block_structure, C07_sketch_sections_structure), and - composed with the grouping of the lexical skeleton into IR nodes and with C07_roundtrip_partial - the compound statements of the firmware and the conditions each line runs under are proved to be those of Python's block tree for every layout inside the guard (C07_firmware_blocks_are_pythons_partial, C07_layout_to_firmware_partial, C07_firmware_paths_are_pythons_partial); the statement layer enters these theorems as arbitrary functions. The model is run against the real functions on enumerated and generated inputs; the property's own relations (same firmware across layouts; no unlisted line disappears; every control header of the script is in the firmware once and every numbered statement / break / continue / return runs in the function and under the chain of conditions Python gives it) are evaluated on the real transpiler.",
     "level_text_2": "Added: (a) the round trip at the level of parse() is PROVED (C07_top_roundtrip_partial, C07_top_relayout_invariant_partial: target(...) directives, import filter, column-0 while True / while / for / def, if / try chains through _collect_if/try_structure, simple statements; guard Layout.top_layout_ok) and composed with the firmware block theorems into one statement from source text to emitted C++ blocks (C07_script_to_firmware_partial, C07_two_layouts_same_firmware_partial). (b) the statement recognisers are inside the model: every RE_* pattern is translated from its parsed form into Lang/Rx.v (derivative matcher, C07_rx_match_decides), 63 of 74 are proved to be instances of five shapes, the dispatch loop of _parse_simple_lines (order, device-set guards) is regenerated from its source and pinned (C07_dispatch_chain_pinned); optional spacing between tokens is proved accepted for every spacing inside the exact guard (C07_call0_spacing_partial, C07_call_spacing_partial, C07_decl_spacing, C07_sleep_spacing) and refuted outside it by the witnesses of the two findings (C07_call_paren_space_refuted, C07_call_dot_space_refuted, C07_call_args_paren_space_refuted, C07_keyword_paren_refuted).",
+    "level_text_3": "Added (third round): the statement layer between the lexical skeleton and the emitted blocks. (c) variable promotion is inside the model (Lang/Promote.v: _rewrite_nodes, the if handler's local _rewrite, _make_promotion_decls, what the while / for / try / if handlers append): for EVERY set of promoted names and every node tree the rewritten tree holds the same statements in the same places (C07_promotion_rewrite_keeps_every_statement, C07_promotion_rewrite_if_keeps_every_statement, C07_promotion_rewrite_keeps_paths), no promoted name stays declared below (C07_promotion_rewrite_assigns_promoted), and a handler adds nothing but default-initialised placeholder declarations in front of the block (C07_promoted_loop_keeps_its_body, C07_promotion_adds_only_placeholders). (d) _emit_block's statement nodes next to the de-duplication sets it threads through setup() (Lang/EmitStmt.v): emitting = resolving the device declarations against the sets, then writing (C07_emit_resolves_then_writes); resolving touches no statement node (C07_resolve_keeps_every_statement); hence in every state of the sets, inside and outside setup(), the lines of every statement node and stanza are written, in order, as often as the script makes the statement (C07_statement_lines_written_in_every_state, C07_statement_line_count, C07_statements_ignore_the_sets, C07_outside_setup_sets_unchanged). Both models run against the real functions (_rewrite_nodes, _make_promotion_decls, _emit_block with given sets) on generated IR trees, and the theorems' relations are evaluated on the real outputs (oracle).",
     "level_note": "Trusted: Coq kernel, translator harness/gen/dispatch.py (black-box observation of parse+emit), extraction, OCaml driver, CPython tokenize/ast as 'what Python means'. Theorems are about the model. The RE_* patterns and the order / guards of the dispatch loop are regenerated from parser.py on every run (harness/gen/linerx.py, fail-closed) and run by a regex engine proved to decide the usual language of a regular expression.",
     "design_ref": "DESIGN.md section 4 C07, Appendix B.5",
 }
@@ -87,7 +89,17 @@ def header_cases(rng, progs_lines, thorough):
 
 
 # ---------------------------------------------------------------------------------------------
+def _tick(label, _t=[None]):
+    import os, sys, time
+    if os.environ.get("C07_TIMING"):
+        now = time.time()
+        if _t[0] is not None:
+            print(f"[c07 timing] {label}: {now - _t[0]:.1f}s", file=sys.stderr)
+        _t[0] = now
+
+
 def run(ctx: C.Ctx):
+    _tick("start")
     rng = ctx.rng
     thorough = ctx.tier == "thorough"
     dist = {"leaf_kinds": {}, "units": {}, "exceptions": {}, "dispatch_outcomes": {}, "formerly_excluded_now_generated": {}}
@@ -144,11 +156,24 @@ def run(ctx: C.Ctx):
         G.OPTS.update({"hollow": 0.0, "max_elifs": 2, "jumps": False})
     n_random = len(progs)
     progs += G.systematic_programs()          # exhaustive small chains / try / loops over {device statement, pass, print}
+    # third round: (a) statements drawn WITH repetition from a small pool (Core pin calls, device calls, writes, sleeps,
+    # assignments) in every phase and at every depth; (b) assignments whose first occurrence is inside a block (the parser
+    # promotes the name and rewrites the block body), default-valued or not, in front of compound statements or not
+    n_rep = 60 if thorough else 10
+    n_asg = 90 if thorough else 14
+    rep_from = len(progs)
+    for i in range(n_rep):
+        progs.append(G.gen_rep_program(rng, maxdepth=rng.choice([1, 2, 2, 3])))
+    progs += G.systematic_rep_programs()
+    for i in range(n_asg):
+        progs.append(G.gen_asg_program(rng, maxdepth=rng.choice([2, 3, 3, 4])))
+    progs += G.systematic_asg_programs()
+    _learn_replines(progs)
     inguard = []       # (prog index, unit, ltops, final junk, lines)
     for pi, tops in enumerate(progs):
         lt, fj = G.canonical(tops)
         inguard.append((pi, "    ", lt, fj, G.render(lt, fj, "    ")))
-        for j in range(n_lay if pi < n_prog else 2):
+        for j in range(n_lay if pi < n_prog else 2 if (pi < rep_from or thorough) else 1):
             u = rng.choice(G.UNITS)
             dens = rng.choice([0.15, 0.35, 0.6])
             sp = rng.choice([0.0, 0.5, 0.9])
@@ -158,7 +183,10 @@ def run(ctx: C.Ctx):
             for k, v in G.formerly_excluded(lt, u).items():
                 dist["formerly_excluded_now_generated"][k] = dist["formerly_excluded_now_generated"].get(k, 0) + v
     perturbed = []
-    for (_, _, _, _, lines) in inguard:
+    # the lexical / SPEC correspondences (sections 3, 4) draw from the layouts of the first batches: the third-round programs add
+    # no new lexical shape (same headers, same layouts), only new statement texts
+    lex_inguard = [e for e in inguard if e[0] < rep_from] if not thorough else inguard
+    for (_, _, _, _, lines) in lex_inguard:
         if rng.random() < (0.5 if thorough else 0.35):
             perturbed.append(G.perturb(rng, lines, strength=rng.choice([0.05, 0.2, 0.4])))
     for tops in progs:
@@ -166,6 +194,7 @@ def run(ctx: C.Ctx):
             key = meta[0] + (":" + str(meta[1]) if meta[0] == "allowed" else "")
             dist["leaf_kinds"][key] = dist["leaf_kinds"].get(key, 0) + 1
 
+    _tick("0 fixed witnesses + generation")
     # ================================================================ 1. real transpiler on every layout (one subprocess)
     all_scripts = [l for (_, _, _, _, l) in inguard] + perturbed
     impl = C.run_impl("c07_impl.py", {"cases": [["trace", l] for l in all_scripts]}, timeout=3000)
@@ -241,11 +270,11 @@ def run(ctx: C.Ctx):
         lines, r = base[pi]
         if r.get("exc") or r.get("cpp") is None:
             continue
-        want = F.py_items(progs[pi])
+        want = F.py_items(progs[pi], REPLINES)
         evaluations += 1
         n_items += len(want)
         for p_, it in want:
-            kname = "stmt" if it[0] == "stmt" else it[0] + ":" + str(it[1])
+            kname = it[0] if it[0] in ("stmt", "line", "asg") else it[0] + ":" + str(it[1])
             struct_kinds[kname] = struct_kinds.get(kname, 0) + 1
             if len(p_) > 1:
                 nontrivial.add(("struct", pi, repr(p_), repr(it)))
@@ -264,8 +293,25 @@ def run(ctx: C.Ctx):
         key, what, exp, obs = _structure_verdict(tops, r["cpp"])
         ctx.fail(what, {"script": lines, "firmware": [l for _, h, b in F.sections(r["cpp"]) for l in [h] + b + ["}"]]}, exp, obs, key=key)
     dist["block_structure_items"] = struct_kinds
+    rep_occ = rep_dup = asg_occ = asg_default_before_compound = 0
+    for tops in progs[rep_from:]:
+        seen_t = {}
+        for tmpl, meta, where in G.leaves(tops):
+            if meta[0] == "rep":
+                rep_occ += 1
+                seen_t[meta[1]] = seen_t.get(meta[1], 0) + 1
+            elif meta[0] == "asg":
+                asg_occ += 1
+        rep_dup += sum(v - 1 for v in seen_t.values() if v > 1)
+        asg_default_before_compound += _count_default_before_compound(tops)
+    dist["third_round"] = {"programs_with_repeated_statements": n_rep, "systematic_repeated": len(G.systematic_rep_programs()),
+                           "programs_with_promoted_assignments": n_asg, "systematic_assignment_programs": len(G.systematic_asg_programs()),
+                           "repeated_statement_occurrences": rep_occ, "occurrences_beyond_the_first": rep_dup, "assignment_statements": asg_occ,
+                           "default_valued_assignment_directly_before_compound": asg_default_before_compound,
+                           "reference_lines_learnt": {k: len(v) for k, v in sorted(REPLINES.items())}}
     dist["hollow_bodies"] = _count_hollow(progs)
 
+    _tick("1 transpile + oracles A-C")
     # ================================================================ 2. model vs code: call tree of _parse_simple_lines
     n_trace = 0
     if have_model:
@@ -296,6 +342,7 @@ def run(ctx: C.Ctx):
             if o10[1] != want:
                 ctx.disagree("parse_top of an in-guard layout is not the skeleton (round trip)", lines, o10[1], want)
 
+    _tick("2 call tree + round trip")
     # ================================================================ 2b. the emitter: model vs code, spec reader vs its Python twin
     n_emit = 0
     ir_dist = {}
@@ -380,11 +427,109 @@ def run(ctx: C.Ctx):
         evaluations += n_emit
     dist["emitter_ir_nodes"] = ir_dist
 
+    _tick("2b emitter")
+    # ================================================================ 2c. statement layer: promotion rewrite, _emit_block and its sets
+    n_stmt = 0
+    st_dist = {"rewrite_trees": 0, "rewrite_decl_of_promoted": 0, "rewrite_default_decl_before_compound": 0, "promodecl_cases": 0,
+               "emitstate_trees": 0, "emitstate_in_setup": 0, "emitstate_repeated_statement_lines": 0, "emitstate_declarations": 0}
+    # (i) the real _rewrite_nodes: model vs code, and the theorem's relation (same statements, same places) on the real output
+    rw_cases = []
+    for tr in S.boundary_pn():
+        rw_cases.append((["count", "level", "flag", "msg"], tr))
+        rw_cases.append((["a", "count"], tr))
+    for _ in range(700 if thorough else 160):
+        rw_cases.append((rng.sample(S.NAMES, rng.randint(0, 4)), S.gen_pn(rng, 0, rng.choice([1, 2, 3]))))
+    rw_impl = C.run_impl("c07_impl.py", {"cases": [["rewrite", p_, tr] for p_, tr in rw_cases]}, timeout=3000)
+    rw_model = ctx.model([[21, 0, p_, [], False, S.flat_pn(tr)] for p_, tr in rw_cases]) if have_model else [None] * len(rw_cases)
+    rw_reported = False
+    for (p_, tr), ri, mo in zip(rw_cases, rw_impl, rw_model):
+        n_stmt += 1
+        st_dist["rewrite_trees"] += 1
+        fin = S.flat_pn(tr)
+        hit = [n for n in S.decl_names(fin) if n in p_]
+        st_dist["rewrite_decl_of_promoted"] += len(hit)
+        st_dist["rewrite_default_decl_before_compound"] += S.default_decl_before_compound(fin, p_)
+        if hit:
+            nontrivial.add(("rewrite", repr(p_), repr(tr)))
+        if ri["exc"]:
+            ctx.disagree("_rewrite_nodes raises on a hand-built IR tree", [p_, tr], "a node list", ri["exc"])
+            continue
+        fout = S.flat_pn(ri["nodes"])
+        if S.as_assign(fout) != S.as_assign(fin) and not rw_reported:
+            rw_reported = True
+            ctx.fail("_rewrite_nodes (variable promotion) does not hand back the statements it was given: a statement of the block body is "
+                     "missing, added or in another block after the rewrite", {"promoted": p_, "nodes": tr},
+                     {"statements (declarations read as assignments)": S.as_assign(fin)}, {"statements": S.as_assign(fout)}, key="rewrite-loses-statement")
+        if mo is not None:
+            mout = S.dec_pn(mo[1], C.wstr)
+            if mout != fout:
+                ctx.disagree("_rewrite_nodes vs Promote.rewrite", [p_, tr], mout, fout)
+    # (ii) the real _make_promotion_decls
+    pd_cases = []
+    for top in (False, True):
+        for names in ([], ["count"], ["count", "level", "flag", "msg", "lst", "unknown"]):
+            pd_cases.append((names, [["count", "int"], ["level", "float"], ["flag", "bool"], ["msg", "String"], ["lst", "__redu_list<int>"]], top))
+    pd_impl = C.run_impl("c07_impl.py", {"cases": [["promodecls", n_, t_, top] for n_, t_, top in pd_cases]})
+    pd_model = ctx.model([[21, 2, n_, t_, top, []] for n_, t_, top in pd_cases]) if have_model else [None] * len(pd_cases)
+    for (n_, t_, top), ri, mo in zip(pd_cases, pd_impl, pd_model):
+        n_stmt += 1
+        st_dist["promodecl_cases"] += 1
+        if ri["exc"]:
+            ctx.disagree("_make_promotion_decls raises", [n_, t_, top], "declarations", ri["exc"])
+        elif mo is not None and S.dec_pn(mo[1], C.wstr) != S.flat_pn(ri["nodes"]):
+            ctx.disagree("_make_promotion_decls vs Promote.make_decls", [n_, t_, top], S.dec_pn(mo[1], C.wstr), S.flat_pn(ri["nodes"]))
+    # (iii) the real _emit_block inside / outside setup(), with empty and pre-filled de-duplication sets, on trees in which the
+    # same statement node occurs several times next to device declarations
+    leaf2 = C.run_impl("c07_impl.py", {"cases": [["leaflines", sp] for sp in S.STMT_SPECS]})
+    leaf_lines2 = {repr(sp): (o["lines"] or []) for sp, o in zip(S.STMT_SPECS, leaf2)}
+    es_cases = []
+    for _ in range(500 if thorough else 120):
+        pool = rng.sample(S.STMT_SPECS, rng.randint(2, 5))
+        # pre-filled sets: keys of declarations, and arbitrary tuples made of the statement texts of the pool (a statement must not care)
+        texts_ = [str(a) for sp in pool for a in sp[1:2]]
+        pm = rng.choice([[], [], [["led", "13"]], [[t] for t in texts_], [[sp[0]] + [str(a) for a in sp[1:2]] for sp in pool], [["pin_mode", t] for t in texts_],
+                         [["bz", "8", "OUTPUT"], ["mot", "4", "in1"]]])
+        pm = [list(k) for k in dict.fromkeys(tuple(k) for k in pm)]
+        us = rng.choice([[], [], [["us", "2", "OUTPUT"]]])
+        es_cases.append((rng.random() < 0.7, rng.choice(["", "  ", "    "]), pm, us, S.gen_sn(rng, 0, rng.choice([1, 2, 3]), pool)))
+    es_impl = C.run_impl("c07_impl.py", {"cases": [["emitstate", b_, ind, pm, us, tr] for b_, ind, pm, us, tr in es_cases]}, timeout=3000)
+    es_model = (ctx.model([[22, b_, ind, pm, us, S.enc_sn(tr, leaf_lines2)] for b_, ind, pm, us, tr in es_cases])
+                if have_model else [None] * len(es_cases))
+    es_reported = False
+    for (b_, ind, pm, us, tr), ri, mo in zip(es_cases, es_impl, es_model):
+        n_stmt += 1
+        st_dist["emitstate_trees"] += 1
+        st_dist["emitstate_in_setup"] += int(b_)
+        if ri["exc"]:
+            ctx.disagree("_emit_block raises on a hand-built IR tree", [b_, ind, pm, us, tr], "lines", ri["exc"])
+            continue
+        if mo is None:
+            continue
+        want_stmt = texts(mo[4])
+        rep = len(want_stmt) - len(set(want_stmt))
+        st_dist["emitstate_repeated_statement_lines"] += rep
+        st_dist["emitstate_declarations"] += repr(tr).count("Decl'") - repr(tr).count("'VarDecl'")
+        if rep:
+            nontrivial.add(("emitstate", b_, repr(pm), repr(tr)))
+        if not S.is_sub(want_stmt, ri["lines"]) and not es_reported:
+            es_reported = True
+            ctx.fail("_emit_block does not write the lines of every statement node (in order) - a statement is skipped depending on what was emitted before "
+                     "or on the de-duplication sets", {"in_setup": b_, "indent": ind, "emitted_pin_modes": pm, "ultrasonic_pin_modes": us, "nodes": tr},
+                     {"statement and stanza lines (each node emitted alone)": want_stmt}, {"lines written": ri["lines"]}, key="emit-skips-statement")
+        if texts(mo[1]) != ri["lines"]:
+            ctx.disagree("_emit_block with de-duplication sets vs EmitStmt.emit_sl (lines)", [b_, ind, pm, us, tr], texts(mo[1]), ri["lines"])
+        elif sorted([texts(k) for k in mo[2]]) != ri["pm"] or sorted([texts(k) for k in mo[3]]) != ri["us"]:
+            ctx.disagree("_emit_block with de-duplication sets vs EmitStmt.emit_sl (sets afterwards)", [b_, ind, pm, us, tr],
+                         [sorted([texts(k) for k in mo[2]]), sorted([texts(k) for k in mo[3]])], [ri["pm"], ri["us"]])
+    evaluations += n_stmt
+    dist["statement_layer"] = st_dist
+
+    _tick("2c statement layer")
     # ================================================================ 3. lexical functions called directly
     icases = indent_cases(rng, thorough)
     scases = strip_cases(rng, thorough)
     span_cases = []
-    span_src = [l for (_, _, _, _, l) in inguard[:: (2 if thorough else 5)]] + perturbed[:: (1 if thorough else 2)]
+    span_src = [l for (_, _, _, _, l) in lex_inguard[:: (2 if thorough else 5)]] + perturbed[:: (1 if thorough else 2)]
     for lines in span_src:
         idx = list(range(len(lines)))
         if len(idx) > 12:
@@ -422,6 +567,7 @@ def run(ctx: C.Ctx):
             if mv != io:
                 ctx.disagree(names[code], pc[1:], mv, io)
 
+    _tick("3 lexical")
     # ================================================================ 4. the SPEC (Lang/PyLayout.v) against CPython
     n_spec = 0
     if have_model:
@@ -436,7 +582,7 @@ def run(ctx: C.Ctx):
             if mv != pr:
                 ctx.disagree("SPEC py_strip_comment / py_has_comment vs CPython tokenize", t, mv, pr)
         # block structure: py_block vs CPython's ast on every script that compiles
-        block_src = [l for (_, _, _, _, l) in inguard[:: (1 if thorough else 3)]] + perturbed
+        block_src = [l for (_, _, _, _, l) in lex_inguard[:: (1 if thorough else 3)]] + perturbed
         pyb = C.run_impl("c07_impl.py", {"cases": [["pyblocks", l] for l in block_src]}, timeout=3000)
         c8, meta8 = [], []
         for lines, pb in zip(block_src, pyb):
@@ -461,6 +607,7 @@ def run(ctx: C.Ctx):
         dist["spec_blocks_inside_block_guard"] = in_block_guard
         evaluations += n_spec
 
+    _tick("4 spec")
     # ================================================================ 5. line-accounting rows, re-observed with the hook
     rows = D.all_rows()
     row_scripts = []
@@ -507,6 +654,7 @@ def run(ctx: C.Ctx):
             if oc == "Translated" and hooked and kind not in ("semicolon_join",):
                 ctx.disagree("hook _VERIF_IGNORED vs black-box observation (translated line reported as ignored)", script, "not reported", w["ignored"])
 
+    _tick("5 rows")
     # ================================================================ 5b. statement recognisers: RE_* patterns and the dispatch loop
     rx_names = C.run_impl("c07_impl.py", {"cases": [["rxnames"]]})[0]
     shapes = L.shape_cases(rng, thorough)
@@ -634,32 +782,41 @@ def run(ctx: C.Ctx):
     dist["spacing_cases"] = n_sp
     dist["spacing_cases_inside_guard"] = n_sp_guard
 
-    # ================================================================ 6. known findings: replay every listed witness
+    _tick("5b recognisers")
+    # ================================================================ 6. known findings: replay every listed witness (one batch)
     replayed = 0
+    fcases, fmeta = [], []
     for f in ctx.findings:
         if f.get("kind") == "fixed":
             continue                      # replayed in step 0 (a failing one is a violation, never a known finding)
         wit = f.get("witness", {})
-        still = False
+        at = len(fcases)
         if wit.get("mode") == "relayout":
-            r = C.run_impl("c07_impl.py", {"cases": [["trace", wit["base"]], ["trace", wit["variant"]]]})
-            still = (r[0]["cpp"] != r[1]["cpp"]) or (r[0]["exc"] != r[1]["exc"])
+            fcases += [["trace", wit["base"]], ["trace", wit["variant"]]]
         elif wit.get("mode") == "silent-drop":
-            cs = []
             for k in wit["kinds"]:
                 for cname in wit["contexts"]:
-                    cs += [["trace", D.build(k, cname, True).splitlines()], ["trace", D.build(k, cname, False).splitlines()]]
-            r = C.run_impl("c07_impl.py", {"cases": cs})
-            for j in range(0, len(r), 2):
-                if not r[j]["exc"] and not r[j + 1]["exc"] and r[j]["cpp"] == r[j + 1]["cpp"]:
-                    still = True
+                    fcases += [["trace", D.build(k, cname, True).splitlines()], ["trace", D.build(k, cname, False).splitlines()]]
         elif wit.get("mode") == "strip":
-            r = C.run_impl("c07_impl.py", {"cases": [["strip", wit["line"]], ["pycomment", wit["line"]]]})
+            fcases += [["strip", wit["line"]], ["pycomment", wit["line"]]]
+        fmeta.append((f, wit.get("mode"), at, len(fcases)))
+    fres = C.run_impl("c07_impl.py", {"cases": fcases}, timeout=3000) if fcases else []
+    for f, mode, a0, a1 in fmeta:
+        r = fres[a0:a1]
+        still = False
+        if mode == "relayout":
+            still = (r[0]["cpp"] != r[1]["cpp"]) or (r[0]["exc"] != r[1]["exc"])
+        elif mode == "silent-drop":
+            for j_ in range(0, len(r), 2):
+                if not r[j_]["exc"] and not r[j_ + 1]["exc"] and r[j_]["cpp"] == r[j_ + 1]["cpp"]:
+                    still = True
+        elif mode == "strip":
             still = r[1] is not None and r[0].rstrip() != r[1][0].rstrip()
         replayed += 1
         if still:
             ctx.known(f"{f['id']}: {f['what']}")
 
+    _tick("6 findings")
     # ================================================================ evidence
     for (pi, u, lt, fj, lines) in inguard[1:4]:
         samples.append({"unit": u, "script": lines})
@@ -677,6 +834,8 @@ def run(ctx: C.Ctx):
                  "oracle C compares, per function of the sketch, the multiset of (path, item) - items: control headers, numbered statements, break / continue / return; path: function, enclosing loops / try / catch, and for a member of an if chain its own condition and the negated earlier ones - computed from the skeleton and from the firmware read with the C++ reader; the smallest failing script per class is shrunk by removing statements while the real transpiler still fails. "
                  "emitter: random IR control skeletons (depth <= 4, bodies empty with probability 0 / 0.3 / 0.6, 11 leaf node kinds incl. one that emits nothing and one that opens its own block, 5 indentations) plus all 81+8 placements of empty / line-less / non-empty bodies in a 3-branch chain, through the real _emit_block and the extracted emit_list (lines equal), whole hand-built Programs through the real emit() (sections), the extracted C++ reader against its Python twin on every emitted block and every real firmware section, and py_cs of the model (parse_lines -> to_ir) against the compound statements of the real firmware of every generated program. "
                  "recognisers: every RE_* pattern (extracted engine on the regenerated pattern vs the compiled pattern) on the pool of lines = hand-picked near-misses, header seeds, the probe lines of the 69 statement kinds, the statement lines of the generated programs, all spacing variants of the four statement shapes, and 700 (3000) random 1-3 character edits of those over {blank, tab, ( ) . : = # \" , _ x 1}, each after _strip_inline_comment; the dispatch loop on the same lines under three device-name environments (the real _parse_simple_lines runs with recording proxies in place of the module's RE_* objects: patterns tried in order with outcome, accepting step); spacing: every gap position over {none, blank, two blanks, tab} for led.on() / mon.write(..) / led = Led(..) / sleep(..) plus random statements over 7+26 methods, 10 classes, 10 receivers - CPython tokenize must give the same tokens, and inside the exact guard of the spacing theorems the real parser must build the same nodes as for the canonical spacing (oracle). "
+                 "third round: (a) programs whose statements are drawn WITH repetition from a pool of 3-6 texts out of 17 (pin_mode / digital_write / analog_write on two pins with changing modes, led.on/off/toggle, mon.write, sleep, x = / x +=) at every depth of setup(), a function and the main loop, plus an exhaustive family (every triple over {pin_mode(7, OUTPUT), pin_mode(7, INPUT), digital_write(7, HIGH)} with a repetition, wrapped in each block kind, in setup / main loop / function; every pool statement twice in a row and again after another one; every compound statement kind twice in a row with the same header and body); the C++ lines of a statement are learnt from a reference run of the statement alone and every occurrence must show them under the path Python gives it (multiset). (b) programs with assignments to fresh names at every depth (first assignment inside for / while / try / if bodies, hence promoted), default (0, 0.0, False, \"\") and other literals, directly in front of compound statements (1-3 initialisations in a row) or elsewhere, re-assigned and bumped later, own names per section, plus the exhaustive family 4 types x 4 outer block kinds x 4 inner compound kinds x {default, other}; every assignment must be in the firmware under its path as `name = E;` or `T name = E;` (file-scope definitions count for the top level of setup), left-over firmware assignments must be default-valued (placeholders). "
+                 "statement-layer IR: promotion rewrite on 160 (700) random trees + the boundary family (default / other value x 4 types x followed by if / while / for / try / simple / nothing x preceded by nothing / declaration / assignment) with 0-4 promoted names; _make_promotion_decls on 6 name lists x {top, nested}; _emit_block inside / outside setup() with empty and pre-filled sets on 120 (500) trees over 15 statement specs (drawn with repetition) and 12 device declarations. "
                  "non-trivial = a layout differing from the canonical one / a line the stripper changes / a non-empty span / a header text some regex matches."),
         "samples": samples,
         "distribution": {**dist, "programs": n_prog, "inguard_layouts": len(inguard), "perturbed_scripts": len(perturbed), "relayout_pairs": n_pairs,
@@ -688,13 +847,16 @@ def run(ctx: C.Ctx):
                   "around operators, inside call parentheses, before the header colon, after keywords (not between a callee and '(', not around '.', "
                   "not if(/while(/elif( without a blank, not `range (`). accounting: statement kinds outside DispatchSpec.known_gaps. "
                   "firmware block structure: simple statements whose C++ lines are closed pieces (every block they open they close: leaf_ok), elif/else only after if/elif and except only after try/except (chain_ok - Python's grammar); "
-                  "an `else` whose body yields no IR node is not written by the emitter - it cannot change what runs, the oracle accepts it present or absent; numbered statements are mon.write / x = / sleep lines."),
+                  "an `else` whose body yields no IR node is not written by the emitter - it cannot change what runs, the oracle accepts it present or absent; numbered statements are mon.write / x = / sleep lines. "
+                  "repeated statements: simple statements whose lines do not depend on where they stand (no device re-declaration in between); assignments: literal right-hand sides are compared after removing blanks and parentheses, `+=` / `v = v + k` by target and path only; a firmware assignment that no script statement accounts for is tolerated iff its right-hand side is the default of a C++ type (the placeholder declaration of a promoted name, or the assignment it becomes when the name is promoted a second time - an ADDED statement, which C07 does not forbid; whether the reset changes what the program computes is C01's question)."),
         "unmodelled": ["line continuation (backslash, open brackets) and multi-line string literals",
                        "the handlers behind the recognisers (argument extraction, IR construction): the dispatch loop is modelled up to the accepting step; which (kind, context) ends translated / rejected / ignored is still the observed table Gen/Dispatch.v",
                        "_handle_assignment_ast's decision to take a line (CPython's ast): enters the dispatch model as a boolean computed by the harness from CPython's ast and cross-checked against the real function on every case",
                        "target(...) inside a NESTED block header (`if target(\"x\"):`) - parse_m does not model the skip; at column 0 target(...) directives are modelled (Lex.top_target)",
                        "universally quantified dispatch theorems (which handler a whole family of lines reaches): proved are the recognisers' acceptance for every spacing inside the guard and the pinned order; the negative part (no earlier recogniser takes the line) is computed on concrete lines only",
-                       "the C++ lines a simple (non-control) node is emitted as: leaves of the IR model carry them as given (taken from the real emitter in the correspondence); hoisting of declarations / pinMode into setup() by emit(); variable promotion nodes the parser inserts before a block",
+                       "the C++ lines a simple (non-control) node is emitted as: leaves of the IR models carry them as given (taken from the real emitter in the correspondence); hoisting of declarations / pinMode into setup() by emit()",
+                       "WHICH names a handler promotes (_promote_branch_decls, the var_declared sets of the child contexts, _collect_order) and their types: Promote.v takes the list of names and the type table as given; the statement handlers that build VarDecl / VarAssign nodes (C01 / C02)",
+                       "device-table state of _emit_block other than the two de-duplication sets (a re-declared device changes the pin later statements use; LCD / animation counters): statement leaves of EmitStmt.v carry their lines as given",
                        "C++ compound statements are read line-wise (a line ending in `{` opens, a line `}` closes): braces inside string literals or several statements per line are outside the reader - the emitter writes one statement per line",
                        "non-ASCII identifier / digit characters in the patterns (\\w, \\d, \\b are modelled for ASCII; generated lines are ASCII plus Unicode blanks)",
                        "optional spacing around operators and commas inside argument / condition text (the recognisers see it as `.*`): re-layout oracle on the real transpiler only",
@@ -708,17 +870,48 @@ def run(ctx: C.Ctx):
                         "Python's layout rules as modelled in Lang/PyLayout.v (validated against CPython tokenize/ast on every run)"]
 
 
+REPLINES = {}      # canonical statement text -> the C++ lines the real transpiler writes for the statement alone
+
+
+def _learn_replines(progs):
+    """reference run: every distinct repeated statement alone after the prelude; its lines = setup() minus the prelude's"""
+    texts = sorted({t for tops in progs for t in G.rep_texts(tops)} - set(REPLINES))
+    if not texts:
+        return
+    rs = C.run_impl("c07_impl.py", {"cases": [["trace", G.REP_PRELUDE]] + [["trace", G.REP_PRELUDE + [t]] for t in texts]}, timeout=3000)
+
+    def setup_of(r):
+        return [l.strip() for n, _, b in F.sections(r["cpp"] or "") if n == "setup" for l in b]
+    base = setup_of(rs[0])
+    for t, r in zip(texts, rs[1:]):
+        body = setup_of(r)
+        lines = body[len(base):] if body[: len(base)] == base else None
+        if r.get("exc") or not lines:
+            REPLINES[t] = []            # the statement alone leaves no line: nothing to demand of its repetitions
+        else:
+            REPLINES[t] = lines
+
+
 def _structure_verdict(tops, cpp):
     """None, or (class key, what, expected, observed) when the firmware does not have the script's block structure"""
-    want = F.py_items(tops)
-    got, problem = F.fw_items(cpp, F.marks_of(tops))
+    want = F.py_items(tops, REPLINES)
+    spec = {"vocab": {l for t in G.rep_texts(tops) for l in REPLINES.get(t, [])}, "vars": G.asg_names(tops)}
+    got, problem = F.fw_items(cpp, F.marks_of(tops), spec)
     if got is None:
         return ("firmware-unbalanced", "the emitted firmware is not a sequence of closed compound statements",
                 "balanced braces in every function", problem)
-    if want == got:
+    missing, extra = F.items_diff(want, got)
+    if not missing and not extra:
         return None
-    missing, extra = _msdiff(want, got), _msdiff(got, want)
     kind = (missing or extra)[0][1]
+    if kind[0] in ("line", "asg"):
+        n_m = len([x for x in missing if x[1][0] == kind[0]])
+        what = ("a statement that occurs more than once in the script (same text, e.g. the same pin configured again after another mode) is "
+                "written fewer / more times than the script makes it, or under another block - without any diagnostic" if kind[0] == "line" else
+                "an assignment of the script is missing from the block Python puts it in (or sits in another block / function / phase): "
+                "only promotion placeholders `T name = <default>;` may be added in front of a block")
+        return ("statement-" + ("lost" if n_m else "added") + ":" + ("repeated" if kind[0] == "line" else "assignment"), what,
+                {"only in the script (path, item)": F.show(missing)}, {"only in the firmware (path, item)": F.show(extra)})
     return ("block-structure:" + str(kind[0]) + (":" + str(kind[1]) if kind[0] != "stmt" else ""),
             "the firmware does not have the block structure of the script: a control-flow header is missing/added, or a statement "
             "runs under other conditions (or in another function / phase) than Python gives it",
@@ -783,6 +976,8 @@ def _shrink_structure(tops, key, budget=1500):
         size0 = sum(len(l) + 1 for l in G.render(lt0, fj0, "    "))
         cands = []
         for c in variants(tops):                      # strictly smaller scripts only: the search terminates
+            if not G.well_formed(c):
+                continue
             lt, fj = G.canonical(c)
             if sum(len(l) + 1 for l in G.render(lt, fj, "    ")) < size0:
                 cands.append(c)
@@ -810,6 +1005,24 @@ def _shrink_structure(tops, key, budget=1500):
             break
         tops = found
     return tops
+
+
+def _count_default_before_compound(tops):
+    k = 0
+
+    def walk(ns):
+        nonlocal k
+        for i, n in enumerate(ns):
+            if n[0] == "leaf":
+                meta = n[2] if len(n) > 2 else ("plain",)
+                if meta[0] == "asg" and meta[2] in F.C_DEFAULTS and i + 1 < len(ns) and (ns[i + 1][0] == "block" or (
+                        ns[i + 1][0] == "leaf" and len(ns[i + 1]) > 2 and ns[i + 1][2][0] == "asg" and ns[i + 1][2][2] in F.C_DEFAULTS)):
+                    k += 1
+            else:
+                walk(n[3])
+    for t in tops:
+        walk(t[1] if t[0] == "chain" else t[2] if t[0] in ("main", "def") else [])
+    return k
 
 
 def _count_hollow(progs):
